@@ -239,7 +239,7 @@ theorem step_elems (rc : Bool) (h : Rel m db) (he : ElemsOK m.raws db) (s : Stmt
                   intro i hi
                   have : i = pkIndex pk := by simpa [Table.new] using hi
                   subst this
-                  refine ⟨rfl, ?_⟩
+                  refine ⟨rfl, ?_, rfl, Or.inl rfl⟩
                   intro hc
                   apply hp
                   show pk.isEmpty = true
@@ -365,7 +365,7 @@ theorem step_elems (rc : Bool) (h : Rel m db) (he : ElemsOK m.raws db) (s : Stmt
         rw [Rel.resolve_ne m ht] at h1
         obtain ⟨tm', hft, hm1⟩ := Migration.edit_inv m m1 t _ _ id tm hg hmt h1
         subst hm1
-        have hraw := Table.removeColumn_raw tm tm' c ci col hgc hcol' hadd (fun i hi' => (hfr.1 i hi').2) hft
+        have hraw := Table.removeColumn_raw tm tm' c ci col hgc hcol' hadd (fun i hi' => (hfr.1 i hi').ne) hft
         rw [Migration.using_raws, Migration.raws_set, hraw]
         refine he.set h.nodup hd (by rfl) _ ?_ ?_
         · unfold rawSpec
@@ -378,7 +378,7 @@ theorem step_elems (rc : Bool) (h : Rel m db) (he : ElemsOK m.raws db) (s : Stmt
           · intro i hi'
             obtain ⟨hi1, hi2⟩ := List.mem_filter.mp hi'
             obtain ⟨i0, hi0, rfl⟩ := List.mem_map.mp hi1
-            refine ⟨(hfr.1 i0 hi0).1, ?_⟩
+            refine ⟨(hfr.1 i0 hi0).add, ?_, (hfr.1 i0 hi0).pk, (hfr.1 i0 hi0).typ⟩
             intro hc
             rw [hc] at hi2
             cases hi2
@@ -432,7 +432,7 @@ theorem step_elems (rc : Bool) (h : Rel m db) (he : ElemsOK m.raws db) (s : Stmt
       obtain ⟨tm', hft, hm1⟩ := Migration.edit_inv m m1 t _ _ id tm hg hmt h1
       subst hm1
       rw [Migration.using_raws, Migration.raws_set]
-      have hpkf : (pkIndex cols).action = .add ∧ (pkIndex cols).cols ≠ [] := ⟨rfl, hcne⟩
+      have hpkf : (pkIndex cols).Live := ⟨rfl, hcne, rfl, Or.inl rfl⟩
       cases hgi : tm.idxIdx.get? (pkIndex cols).name with
       | none =>
         rw [Table.addIndex_raw_fresh tm tm' _ hgi hft]
@@ -606,7 +606,10 @@ theorem step_elems (rc : Bool) (h : Rel m db) (he : ElemsOK m.raws db) (s : Stmt
         intro i hi'
         rcases List.mem_append.mp hi' with h' | h'
         · exact hfr.1 i h'
-        · rw [List.mem_singleton.mp h']; exact ⟨rfl, hcne⟩
+        · rw [List.mem_singleton.mp h']
+          refine ⟨rfl, hcne, ?_, by cases uniq <;> simp⟩
+          have : (name == pkName) = false := by simpa using hnpk
+          simp [this]
   | dropIndex t name =>
     have ht : t ≠ "" := by simpa [Stmt.elemSafe, Stmt.colSafe, Stmt.table] using hs
     simp only [exec] at hx
@@ -635,7 +638,7 @@ theorem step_elems (rc : Bool) (h : Rel m db) (he : ElemsOK m.raws db) (s : Stmt
         cases hcc : tm.idxs[j]? with
         | none => rw [hcc] at hj; cases hj
         | some x => rw [hcc] at hj; exact ⟨x, rfl, by simpa using hj⟩
-      have hxa : x.action = .add := (hfr.1 x (List.mem_of_getElem? hxj)).1
+      have hxa : x.action = .add := (hfr.1 x (List.mem_of_getElem? hxj)).add
       unfold step at hm
       obtain ⟨m1, h1, hm⟩ := bind_ok hm
       have := pure_ok hm; subst this
@@ -684,7 +687,7 @@ theorem fresh_of_rel (h : Rel m db) (he : ElemsOK m.raws db) : m.Fresh := by
   intro t ht
   have hr : t.raw ∈ m.raws := List.mem_map_of_mem ht
   obtain ⟨hi, hf⟩ := he.fresh _ hr
-  exact ⟨⟨(h.fresh t ht).1, fun i hi' => (hi i hi').1, hf⟩, (h.fresh t ht).2⟩
+  exact ⟨⟨(h.fresh t ht).1, fun i hi' => (hi i hi').add, hf⟩, (h.fresh t ht).2⟩
 
 /-- **C05, indexes and foreign keys.**  For every script (any length) over the vocabulary of `Stmt.elemSafe` that the
     reference engine accepts from the empty schema, the MySQL reader model loads it without error, and table by table
